@@ -5,6 +5,7 @@
 //          "unknown release" warning (printed through UtestShell::getCurrent()) lands in a private TestResult/TestOutput.
 // Oracle:  shadow of every buffer handed out (state, requested size, class at creation, fill pattern) + the recording
 //          allocator's own books (outstanding / returned exactly once / size handed back); ASan for everything else.
+#include <functional>   // before the CppUTest headers (they define `new` as a macro)
 #include "common.h"
 #include "CppUTest/SimpleStringInternalCache.h"
 #include <unordered_map>
@@ -103,7 +104,7 @@ size_t size_in_class(Reader& r, int c) { return cls_lo(c) + r.below((uint32_t)(c
 enum { LIVE, RELEASED, GONE };
 struct Handle { char* p; size_t req; int cls; size_t rec; int state; char fill; uint64_t seq; };
 
-struct Ctx { Reader* r; int rc; bool nontrivial; std::string desc; CaptureOutput* out; bool adaptor; bool global; };
+struct Ctx { Reader* r; int rc; bool nontrivial; std::string desc; CaptureOutput* out; bool adaptor; bool global; bool fixture; };
 
 void fill_buffer(char* p, size_t n, char f) { if (n) { memset(p, f, n - 1); p[n - 1] = 0; } }
 bool buffer_intact(const char* p, size_t n, char f) {
@@ -327,7 +328,21 @@ size_t gen_len(Reader& r) {
 }
 std::string gen_text(Reader& r, size_t len) { std::string s(len, (char)('A' + r.below(26))); if (len > 2) s[len / 2] = (char)('0' + r.below(10)); return s; }
 
-int run_global(Ctx& c) {
+// fixture variant: the output object of the running test is a stock StringBufferTestOutput created BEFORE the cache is installed;
+// it only counts how deep the print path nests and how often the warning is started, and cuts a runaway recursion so that it
+// is reported as a violation instead of a stack overflow.
+struct NestOutput : StringBufferTestOutput {
+    int depth = 0, maxDepth = 0, warnings = 0; bool cut = false;
+    void printBuffer(const char* t) CPPUTEST_OVERRIDE {
+        depth++; if (depth > maxDepth) maxDepth = depth;
+        if (strstr(t, "WARNING: Attempting to deallocate a String buffer")) warnings++;
+        if (depth > 8) cut = true; else StringBufferTestOutput::printBuffer(t);
+        depth--;
+    }
+};
+void call_function(void* p) { (*(std::function<void()>*)p)(); }
+
+int run_global(Ctx& c, bool fixture) {
     Reader& r = *c.r;
     RecAlloc rec;
     TestMemoryAllocator* before = SimpleString::getStringAllocator();
@@ -338,9 +353,20 @@ int run_global(Ctx& c) {
     std::vector<SimpleString*> pre; std::vector<std::string> prem;
     int npre = (int)r.below(3);
     for (int i = 0; i < npre; i++) { std::string t = "static-" + gen_text(r, r.below(50)); pre.push_back(new SimpleString(t.c_str())); prem.push_back(t); }
+    std::vector<bool> reassigned((size_t)npre, false);
+    NestOutput* nout = NULLPTR;
+    TestRegistry ireg; ExecFunctionTestShell ishell;
+    alignas(NestOutput) static char rawout[sizeof(NestOutput)];
+    if (fixture) {   // its collecting string owns a buffer obtained while not caching; never destructed (its last buffer belongs to the cache)
+        nout = new (rawout) NestOutput();
+        if (r.flag()) { nout->print("printed before the cache existed\n"); c.desc += "preprint;"; }
+    }
     size_t pre_blocks = rec.n_out;
     size_t ignored = 0;
     int rc = 0;
+    // a release that happens between two tests of the inner run (e.g. by its progress dot) is reported to the enclosing test's output
+    auto warnings_now = [&]() -> size_t { return (fixture ? (size_t)nout->warnings : 0) + count_warnings(c.out->text); };
+    std::string inner_text; size_t inner_failures = 0;
     // the strings live in raw storage: with `abandon` they are still alive when the global cache is destroyed (which must hand
     // their buffers back all the same) and are never destructed afterwards
     bool abandon = r.below(4) == 3;
@@ -357,8 +383,9 @@ int run_global(Ctx& c) {
         if (SimpleString::getStringAllocator() != gc.getAllocator() || std::string(SimpleString::getStringAllocator()->name()) != "SimpleStringCacheAllocator")
             rc = verif::fail("C18:global-cache-not-installed", "GlobalSimpleStringCache did not install its allocator");
         int nops = 1 + (int)r.below(40);
+        std::function<void()> traffic = [&]() {
         for (int op = 0; rc == 0 && op < nops && !r.empty(); op++) {
-            uint32_t kind = r.below(8);
+            uint32_t kind = r.below(fixture ? 10 : 8);
             int i = (int)r.below(NS), j = (int)r.below(NS);
             if (verif::g_explain) fprintf(stderr, "  op#%d kind=%u i=%d j=%d\n", op, kind, i, j);
             switch (kind) {
@@ -369,15 +396,28 @@ int run_global(Ctx& c) {
             case 4: { s[i]->~SimpleString(); s[i] = new (raw[i]) SimpleString(); m[i] = ""; replaced(i, 0); verif::cls("gop:destroy-create"); c.desc += sfmt("renew s%d;", i); break; }
             case 5: { if (pre.empty()) { verif::cls("gop:noop"); break; }
                       // a string whose buffer was obtained while not caching is destroyed while caching: the documented "unknown release"
-                      delete pre.back(); pre.pop_back(); prem.pop_back(); ignored++; c.nontrivial = true; verif::cls("gop:destroy-static"); c.desc += "~static;";
-                      size_t w = count_warnings(c.out->text);
+                      bool was = reassigned.back();
+                      delete pre.back(); pre.pop_back(); prem.pop_back(); reassigned.pop_back(); c.desc += "~static;";
+                      if (was) { verif::cls("gop:destroy-reassigned-static"); break; }        // its buffer came from the cache by now: an ordinary release
+                      ignored++; c.nontrivial = true; verif::cls("gop:destroy-static");
+                      size_t w = warnings_now();
                       if (w != 1) rc = verif::fail(w > 1 ? "C18:unknown-release-warning-repeated-or-spurious" : "C18:unknown-release-without-warning", "%zu warning(s) after %zu release(s) of buffers allocated while not caching", w, ignored);
                       break; }
             case 6: { size_t pos = r.below((uint32_t)m[j].size() + 2), len = r.below((uint32_t)m[j].size() + 2); SimpleString t = s[j]->subString(pos, len);
                       std::string mt = pos >= m[j].size() ? "" : m[j].substr(pos, len); *s[i] = t; m[i] = mt; replaced(i, mt.size()); verif::cls("gop:substring"); c.desc += sfmt("s%d=s%d.sub;", i, j); break; }
             case 7: { int n = (int)r.below(1000); std::string a = m[j].substr(0, 400); SimpleString t = StringFromFormat("%s|%d", a.c_str(), n); std::string mt = a + "|" + std::to_string(n);
                       *s[i] = t; m[i] = mt; replaced(i, mt.size()); verif::cls("gop:format"); c.desc += sfmt("s%d=fmt(s%d);", i, j); break; }
+            case 8: { std::string t = "note " + gen_text(r, r.below(90)); UT_PRINT(t.c_str()); verif::cls("gop:print-in-test"); c.desc += "print;"; break; }   // output is produced while caching
+            case 9: { if (pre.empty()) { verif::cls("gop:noop"); break; }
+                      // a string created before the cache gets a new value while caching: its old buffer is an unknown release, the new one is the cache's
+                      size_t k = (size_t)j % pre.size(); std::string t = "restatic-" + gen_text(r, gen_len(r) % 200);
+                      *pre[k] = SimpleString(t.c_str()); prem[k] = t; c.desc += sfmt("static%zu=len%zu;", k, t.size());
+                      if (!reassigned[k]) { reassigned[k] = true; ignored++; c.nontrivial = true; verif::cls("gop:reassign-static"); }
+                      size_t w = warnings_now();
+                      if (w != 1) rc = verif::fail(w > 1 ? "C18:unknown-release-warning-repeated-or-spurious" : "C18:unknown-release-without-warning", "%zu warning(s) after %zu release(s) of buffers allocated while not caching", w, ignored);
+                      break; }
             }
+            if (rc == 0 && fixture && nout->cut) rc = verif::fail("C18:unknown-release-warning-recursion", "printing the unknown-release warning re-entered the print path more than 8 levels deep (%d warnings started)", nout->warnings);
             for (int q = 0; rc == 0 && q < NS; q++) {
                 const char* cs = s[q]->asCharString();
                 if (cs == NULLPTR || m[q] != cs) rc = verif::fail("C18:string-content-changed", "after op#%d (kind %u) string %d reads \"%s\", expected \"%s\"", op, kind, q, cs ? verif::printable(cs).substr(0, 200).c_str() : "(NULL)", verif::printable(m[q]).substr(0, 200).c_str());
@@ -385,6 +425,23 @@ int run_global(Ctx& c) {
             for (size_t q = 0; rc == 0 && q < pre.size(); q++) if (prem[q] != pre[q]->asCharString()) rc = verif::fail("C18:string-content-changed", "a string created before caching changed");
             if (rc == 0 && rec.bad) rc = verif::fail("C18:underlying-allocator-contract", "%s [after op#%d kind %u]", rec.badmsg.c_str(), op, kind);
         }
+        };
+        if (fixture) {   // the traffic is the body of a test that reports into the pre-cache output object
+            verif::ExecLambda ex(call_function, &traffic);
+            ishell.testFunction_ = &ex;
+            ireg.addTest(&ishell);
+            TestResult ires(*nout);
+            ireg.runAllTests(ires);
+            inner_failures = ires.getFailureCount();
+            inner_text = nout->getOutput().asCharString();
+            if (rc == 0 && nout->cut) rc = verif::fail("C18:unknown-release-warning-recursion", "printing the unknown-release warning re-entered the print path more than 8 levels deep (%d warnings started)", nout->warnings);
+            if (rc == 0 && inner_failures) rc = verif::fail("C18:test-failed", "the test producing the traffic failed: %s", verif::printable(inner_text).substr(0, 500).c_str());
+            if (rc == 0 && nout->maxDepth > 2) rc = verif::fail("C18:unknown-release-warning-recursion", "print path nested %d deep (one print plus one warning = 2)", nout->maxDepth);
+            ignored++;                                 // the output's own pre-cache buffer: released by the first print of the run
+            verif::cls("g:fixture-output-created-before-cache");
+        } else traffic();
+        // pre-cache strings that were given a new value own a cache buffer now: they must go before the cache does
+        for (size_t k = pre.size(); k-- > 0;) if (reassigned[k]) { delete pre[k]; pre.erase(pre.begin() + (long)k); prem.erase(prem.begin() + (long)k); reassigned.erase(reassigned.begin() + (long)k); }
         if (abandon && rc == 0) { verif::cls("g:strings-alive-at-destruction"); c.desc += "abandon;"; }
         else for (int i = 0; i < NS; i++) s[i]->~SimpleString();
     }   // ~GlobalSimpleStringCache: clears everything, restores the previous string allocator
@@ -396,14 +453,14 @@ int run_global(Ctx& c) {
     for (SimpleString* p : pre) delete p;
     if (rc == 0 && rec.bad) rc = verif::fail("C18:underlying-allocator-contract", "%s [after the window]", rec.badmsg.c_str());
     if (rc == 0 && rec.n_out != ignored) rc = verif::fail("C18:not-returned-after-destroy", "%zu block(s) outstanding at the end, expected %zu (ignored releases)", rec.n_out, ignored);
-    if (rc == 0) { size_t w = count_warnings(c.out->text), want = ignored ? 1 : 0;
+    if (rc == 0) { size_t w = warnings_now(), want = ignored ? 1 : 0;
         if (w != want) rc = verif::fail(w > want ? "C18:unknown-release-warning-repeated-or-spurious" : "C18:unknown-release-without-warning", "%zu warning(s) in total, expected %zu", w, want); }
     return rc;
 }
 
 void body(void* arg) {
     Ctx* c = (Ctx*)arg;
-    if (c->global) c->rc = run_global(*c);
+    if (c->global) c->rc = run_global(*c, c->fixture);
     else { Direct d(*c); c->rc = d.run(); }
 }
 
@@ -414,12 +471,13 @@ extern "C" void verif_init(void) { verif::install_fake_time(); }
 extern "C" int verif_case(const uint8_t* data, size_t size) {
     Reader r(data, size);
     CaptureOutput out;
-    Ctx c{&r, 0, false, "", &out, false, false};
+    Ctx c{&r, 0, false, "", &out, false, false, false};
     uint32_t mode = r.below(8);
     c.global = mode >= 6;
+    c.fixture = mode == 7;
     c.adaptor = mode == 4 || mode == 5;
-    verif::cls(c.global ? "mode:global-cache" : c.adaptor ? "mode:adaptor" : "mode:direct");
-    c.desc = c.global ? "global:" : c.adaptor ? "adaptor:" : "direct:";
+    verif::cls(c.fixture ? "mode:global-cache-fixture-output" : c.global ? "mode:global-cache" : c.adaptor ? "mode:adaptor" : "mode:direct");
+    c.desc = c.fixture ? "global+fixture:" : c.global ? "global:" : c.adaptor ? "adaptor:" : "direct:";
     size_t failures = 0;
     {
         ExecFunctionTestShell shell;
